@@ -243,6 +243,7 @@ func runC11(r *core.Run) {
 		}
 	}
 	sample := []string{"bootstrap: " + writeNames(a.Disk.Log)}
+	serialBase := 100
 	if r.Chance(3, "long-history?") {
 		// a long-lived authority: many rotations with long common names, the store reloaded after
 		// each (no prefixes: the per-write sweep is what the short histories are for)
@@ -257,12 +258,14 @@ func runC11(r *core.Run) {
 		}
 		r.Probe("long-history")
 		hist += fmt.Sprintf(",long(%d)", n)
+		serialBase = 1000
 	}
 	for i := 0; i < nrot; i++ {
 		a.Now = a.Now.Add(time.Duration(1+r.Intn(400, "days")) * 24 * time.Hour)
 		ra := RotArgs{SignCN: cnPool[r.Intn(len(cnPool), "rot-cn")]}
 		if r.Chance(30, "fresh-serial?") {
-			ra.SerialOverride = int64(100 + 10*i + r.Intn(5, "serial"))
+			// (above anything the default numbering of a long history reaches)
+			ra.SerialOverride = int64(serialBase + 10*i + r.Intn(5, "serial"))
 		}
 		hist += fmt.Sprintf(",rot(cn%d,s%d)", len(ra.SignCN), ra.SerialOverride)
 		pre := a.Disk.Snapshot()
